@@ -55,7 +55,7 @@ def gen_cases(ctx):
                 qs[int(np.argmin(qs))] = 0.8
             kw = {'quantiles': qs}
             spec['disc']['flavour'] = 'cont'
-        case = {'spec': spec, 'bs': int(rng.choice([1, 5, 20, 100])), 'n': int(rng.choice([5, 20, 60, 200])), 'seed': seed, 'kw': kw}
+        case = {'spec': spec, 'bar': bool(rng.random() < 0.4), 'bs': int(rng.choice([1, 5, 20, 100])), 'n': int(rng.choice([5, 20, 60, 200])), 'seed': seed, 'kw': kw}
         if case['bs'] == 1 and case['n'] > 60:
             case['n'] = 60
         if rng.random() < 0.3:
@@ -109,10 +109,10 @@ def run_case(ctx, case):
     from vmon import contracts
     from vmon.props import c13
     with contracts.attached(ctx, *c13.specs(ctx)):
-        res = smc.sample(N, bar=False, **kw)
+        res = smc.sample(N, bar=bool(case.get('bar')), **kw)
         kwall = dict(kw)
         if 'cont' in case:
-            res = smc.sample(N, bar=False, **case['cont'])
+            res = smc.sample(N, bar=bool(case.get('bar')), **case['cont'])
             kwall = {k: list(kw[k]) + list(case['cont'][k]) for k in kw}
             ctx.event('continued_runs')
     mode = 'thresholds' if 'thresholds' in kwall else 'quantiles'
